@@ -1,4 +1,4 @@
-import VtProofs.PyramidSet
+import VtProofs.BBoxMore
 /-!
 # C15 — tile bounding boxes and pyramids behave as the sets of tiles they denote
 
@@ -146,6 +146,45 @@ theorem pyramid_equality_ignores_empty_encoding (p q : Pyramid) (hlen : p.length
     Pyramid.beq p q = true ↔ ∀ z (h1 : z < p.length) (h2 : z < q.length),
       ((p[z]'h1).isEmpty = true ∧ (q[z]'h2).isEmpty = true) ∨
       ((p[z]'h1).isEmpty = false ∧ p[z]'h1 = q[z]'h2) := beq_iff p q hlen
+
+
+/-! ### borders, scaling, further pyramid operations -/
+
+/-- `add_border`: the box grown by the borders and clamped to the level; panic-free when the sums
+    fit `u32`; empty boxes (any encoding) stay as they are -/
+theorem add_border (b : BBox) (hr : InRange b) (bx0 by0 bx1 by1 : Nat) :
+    (b.isEmpty = true → b.addBorder bx0 by0 bx1 by1 = .ok b) ∧
+    (b.isEmpty = false → b.xmax + bx1 < U32 → b.ymax + by1 < U32 →
+      ∃ c, b.addBorder bx0 by0 bx1 by1 = .ok c ∧ c.level = b.level ∧ InRange c ∧
+        ∀ x y, mem c x y ↔ (b.xmin - bx0 ≤ x ∧ x ≤ min (b.xmax + bx1) b.maxv ∧
+                              b.ymin - by0 ≤ y ∧ y ≤ min (b.ymax + by1) b.maxv)) :=
+  ⟨fun he => addBorder_empty b he _ _ _ _, fun hne h1 h2 => addBorder_spec b hr hne _ _ _ _ h1 h2⟩
+
+/-- `scale_down` maps every member into the scaled box; scale 0 is the documented panic -/
+theorem scale_down (b : BBox) :
+    (∀ s, 1 ≤ s → ∀ c, b.scaleDown s = .ok c → ∀ x y, mem b x y → mem c (x / s) (y / s)) ∧
+    b.scaleDown 0 = .panic :=
+  ⟨fun s hs _ h x y hm => scaleDown_mem b s hs h x y hm, scaleDown_zero_panics b⟩
+
+open VtModel.Pyramid in
+theorem pyramid_overlaps (p : Pyramid) (hp : WF p) (b : BBox) :
+    Pyramid.overlapsBBox p b = true ↔ ∃ x y, memP p x y b.level ∧ mem b x y := overlapsBBox_iff hp b
+
+open VtModel.Pyramid in
+theorem pyramid_include_bbox (p : Pyramid) (hp : WF p) (b : BBox) (hz : b.level < 32) :
+    ∃ r a c, Pyramid.includeBBox p b = .ok r ∧ p[b.level]? = some a ∧ a.includeBBox b = .ok c ∧
+      r[b.level]? = some c ∧ r.length = p.length ∧ ∀ z', z' ≠ b.level → r[z']? = p[z']? :=
+  includeBBox_spec hp b hz
+
+open VtModel.Pyramid in
+theorem pyramid_swap (p : Pyramid) (x y z : Nat) : memP (Pyramid.swapXY p) x y z ↔ memP p y x z :=
+  swapXY_mem p x y z
+
+open VtModel.Pyramid in
+theorem pyramid_zoom_min (p : Pyramid) :
+    (Pyramid.zoomMin p = none ↔ Pyramid.isEmpty p = true) ∧
+    (∀ z, Pyramid.zoomMin p = some z → ∃ b ∈ p, b.level = z ∧ b.isEmpty = false) :=
+  ⟨zoomMin_none_iff p, fun z h => zoomMin_spec p z h⟩
 
 /-! ### non-vacuity: the hypotheses are met by concrete, non-trivial boxes -/
 
